@@ -7,6 +7,8 @@ type nat =
 | O
 | S of nat
 
+val fst : ('a1 * 'a2) -> 'a1
+
 val snd : ('a1 * 'a2) -> 'a2
 
 val length : 'a1 list -> nat
@@ -68,6 +70,8 @@ type z =
 
 module Nat :
  sig
+  val eqb : nat -> nat -> bool
+
   val leb : nat -> nat -> bool
 
   val ltb : nat -> nat -> bool
@@ -141,6 +145,10 @@ module Coq_Pos :
 
 module N :
  sig
+  val add : n -> n -> n
+
+  val mul : n -> n -> n
+
   val of_nat : nat -> n
  end
 
@@ -155,6 +163,12 @@ val ascii_of_pos : positive -> char
 val ascii_of_N : n -> char
 
 val ascii_of_nat : nat -> char
+
+val n_of_digits : bool list -> n
+
+val n_of_ascii : char -> n
+
+val hd : 'a1 -> 'a1 list -> 'a1
 
 val hd_error : 'a1 list -> 'a1 option
 
@@ -174,6 +188,8 @@ val fold_right : ('a2 -> 'a1 -> 'a1) -> 'a1 -> 'a2 list -> 'a1
 
 val existsb : ('a1 -> bool) -> 'a1 list -> bool
 
+val forallb : ('a1 -> bool) -> 'a1 list -> bool
+
 val filter : ('a1 -> bool) -> 'a1 list -> 'a1 list
 
 val find : ('a1 -> bool) -> 'a1 list -> 'a1 option
@@ -181,6 +197,8 @@ val find : ('a1 -> bool) -> 'a1 list -> 'a1 option
 val firstn : nat -> 'a1 list -> 'a1 list
 
 val skipn : nat -> 'a1 list -> 'a1 list
+
+val seq : nat -> nat -> nat list
 
 module Z :
  sig
@@ -220,6 +238,8 @@ module Z :
 
   val of_nat : nat -> z
 
+  val of_N : n -> z
+
   val to_pos : z -> positive
 
   val to_int : z -> signed_int
@@ -238,6 +258,8 @@ module Z :
 val zeq_bool : z -> z -> bool
 
 val length0 : string -> nat
+
+
 
 type q = { qnum : z; qden : positive }
 
@@ -1027,6 +1049,263 @@ type tok =
 | TS of string
 
 val exn_name : exn -> string
+
+val space_ranges : (z * z) list
+
+val linebreak_ranges : (z * z) list
+
+val digit_ranges : ((z * z) * z) list
+
+val int_max_str_digits : z
+
+type ustr = z list
+
+val in_ranges : z -> (z * z) list -> bool
+
+val digit_in : z -> ((z * z) * z) list -> z option
+
+val is_space : z -> bool
+
+val is_linebreak : z -> bool
+
+val digit_value : z -> z option
+
+val is_digit : z -> bool
+
+val ustr_eqb : ustr -> ustr -> bool
+
+val starts_with : ustr -> ustr -> bool
+
+val ends_with : ustr -> ustr -> bool
+
+val lstrip_c : z -> ustr -> ustr
+
+val rstrip_c : z -> ustr -> ustr
+
+val strip_c : z -> ustr -> ustr
+
+val split_on_aux : z -> ustr -> ustr -> ustr list
+
+val split_on : z -> ustr -> ustr list
+
+val flush : ustr -> ustr list
+
+val split_ws_aux : ustr -> ustr -> ustr list
+
+val split_ws : ustr -> ustr list
+
+val splitlines_aux : ustr -> ustr -> ustr list
+
+val splitlines : ustr -> ustr list
+
+val cQUOTE : z
+
+val cHASH : z
+
+val cLPAR : z
+
+val cRPAR : z
+
+val cSTAR : z
+
+val cMINUS : z
+
+val cSLASH : z
+
+val cZERO : z
+
+val cEQ : z
+
+val cLBRK : z
+
+val cRBRK : z
+
+val cSP : z
+
+val all_digits : ustr -> bool
+
+val is_sdigits : ustr -> bool
+
+val digit_or0 : z -> z
+
+val int_of_digits : ustr -> z
+
+val py_int : ustr -> z res
+
+val p_int : ustr -> z res
+
+val zmem : z -> z list -> bool
+
+val zset_add : z -> z list -> z list
+
+val zmap_set : z -> 'a1 -> (z * 'a1) list -> (z * 'a1) list
+
+val smap_get : ustr -> (ustr * z) list -> z option
+
+val smem : ustr -> ustr list -> bool
+
+val has_dup : z list -> bool
+
+type tk_act =
+| TYield
+| TSkip
+| TBreak
+
+val tok_step : ustr -> z -> bool -> (tk_act * z) * bool
+
+val tok_line : ustr list -> z -> bool -> (ustr list * z) * bool
+
+val tok_lines : ustr list -> z -> bool -> ustr list
+
+val tokenize : ustr -> ustr list
+
+type 'a pres =
+| POk of 'a
+| PStop
+| PRaise of exn
+
+val pbind : 'a1 pres -> ('a1 -> 'a2 pres) -> 'a2 pres
+
+val lift : 'a1 res -> 'a1 pres
+
+val ePE : 'a1 pres
+
+type pst = { s_nCand : z; s_nSeats : z; s_withdrawn : z list;
+             s_undeclared : z list; s_tieOrder : (z * z) list;
+             s_nickName : (z * ustr) list; s_nickCid : (ustr * z) list;
+             s_options : ustr list; s_nBallots : z;
+             s_lines : (z * z list) list; s_linesEq : (z * z list list) list;
+             s_ballotIDs : ustr list }
+
+val init_pst : z -> z -> pst
+
+val set_withdrawn : pst -> z list -> pst
+
+val set_undeclared : pst -> z list -> pst
+
+val set_tie : pst -> (z * z) list -> pst
+
+val set_nick : pst -> (z * ustr) list -> (ustr * z) list -> pst
+
+val set_options : pst -> ustr list -> pst
+
+val add_line : pst -> z -> z list -> pst
+
+val add_lineEq : pst -> z -> z list list -> pst
+
+val add_ballotID : pst -> ustr -> pst
+
+val getCid : pst -> ustr -> z res
+
+val map_res : ('a1 -> 'a2 res) -> 'a1 list -> 'a2 list res
+
+val tie_loop : pst -> ustr list -> z -> (z * z) list -> (z * z) list res
+
+val option_tie : pst -> ustr list -> pst res
+
+val nick_loop :
+  ustr list -> z -> (z * ustr) list -> (ustr * z) list -> ((z * ustr)
+  list * (ustr * z) list) res
+
+val option_nick : pst -> ustr list -> pst res
+
+val cidset_loop : pst -> ustr list -> z list -> z list res
+
+val s_tie : z list
+
+val s_nick : z list
+
+val s_droop : z list
+
+val s_withdrawn_kw : z list
+
+val s_undeclared_kw : z list
+
+val apply_option : pst -> ustr -> ustr list -> pst res
+
+type omode =
+| ONone
+| OCollect of ustr * ustr list
+
+val opts : ustr list -> pst -> omode -> (pst * ustr list) pres
+
+val array_max : z -> z
+
+val ballot_line : pst -> z -> z list list -> pst res
+
+val finish_bid : pst -> ustr -> pst res
+
+type bmode =
+| BHead
+| BBid of ustr
+| BRank of z * z list list
+
+val ballots0 : ustr list -> pst -> bmode -> (pst * ustr list) pres
+
+val names0 :
+  ustr list -> z -> z -> ustr option -> (z * ustr) list -> ((z * ustr)
+  list * ustr list) pres
+
+val read_quoted : ustr list -> ustr -> (ustr * ustr list) option
+
+val unquote : ustr -> ustr
+
+val opt_string : ustr list -> (ustr * ustr list) option pres
+
+type profile0 = { p_nCand : z; p_nSeats : z; p_title : ustr;
+                  p_source : ustr option; p_comment : ustr option;
+                  p_nBallots : z; p_eligible : z list; p_withdrawn : 
+                  z list; p_undeclared : z list;
+                  p_candName : (z * ustr) list; p_candOrder : (z * z) list;
+                  p_lines : (z * z list) list;
+                  p_linesEq : (z * z list list) list;
+                  p_tieOrder : (z * z) list; p_nickName : (z * ustr) list;
+                  p_options : ustr list }
+
+type parsed = { r_st : pst; r_names : (z * ustr) list; r_title : ustr;
+                r_source : ustr option; r_comment : ustr option }
+
+val parse_tail : pst -> ustr list -> parsed pres
+
+val blt_parse_raw : ustr list -> parsed pres
+
+val blt_parse : ustr list -> parsed res
+
+val validate : pst -> z list -> unit res
+
+val ustr_of_string : string -> ustr
+
+val ustr_of_Z : z -> ustr
+
+val cids_upto : z -> z list
+
+val finish : parsed -> profile0 res
+
+val parse_tokens : ustr list -> profile0 res
+
+val parse : ustr -> profile0 res
+
+val strip_bom : ustr -> ustr
+
+val parse_file : ustr -> profile0 res
+
+val nl : string
+
+val show_zs : z list -> string
+
+val show_opt : ustr option -> string
+
+val show_lines : ('a1 -> string) -> 'a1 list -> string
+
+val show_ranks : z list list -> string
+
+val show_profile : profile0 -> string
+
+val show_parse : profile0 res -> string
+
+val toks_zs : tok list -> z list
+
+val run_parse : tok list -> string
 
 val show_resZ : z res -> string
 
